@@ -63,7 +63,20 @@ fn main() {
         let mut occ: std::collections::BTreeMap<&str, usize> = Default::default();
         let mut idx = 0usize;
         for st in &def.steps {
-            if let Step::AddRm(..) = st {
+            if let Step::AddRm(n, _) = st {
+                // a datum that never makes it into a variant: wrong recorded information about it must
+                // not matter (it is not a field) — these twins must be ACCEPTED by the compiler
+                let o = *occ.get(n).unwrap_or(&0);
+                occ.insert(n, o + 1);
+                let real = d.datum_definitions().nth(idx).unwrap();
+                let (rs, ra) = (real.details().size(), real.details().type_align());
+                for (pn, p) in [("sizeup".to_string(), Perturb::Size(rs + 8)), ("alignup".to_string(), Perturb::Align(ra * 2))] {
+                    let twin = std::panic::catch_unwind(|| build_with(&def, Some((n, o, p.clone()))));
+                    if let Ok(t) = twin {
+                        emit(&out, &format!("{}__{}_{}_pending{}", def.name, n, o, pn), &t,
+                             json!({"twin": true, "pending_twin": true, "datum": idx, "perturbation": format!("pending{}", pn), "base": def.name}));
+                    }
+                }
                 idx += 1;
                 continue;
             }
